@@ -399,7 +399,8 @@ def error_discipline(ctx, res):
             n_null = sum(1 for p in paths[f] if p.outcome == ("RETURN", "0"))
             res.instance(f, facts.loc(facts.func(f)), null_paths=n_null,
                          nontrivial=n_null > 0)
-            if f in LOOKUPS or f == "raise_trait_error":
+            if f in LOOKUPS or f == "raise_trait_error" \
+                    or f in facts._lookup_like:
                 res.oblige(True, f, "", "")
                 continue
             bad = bad_paths.get(f)
